@@ -241,7 +241,9 @@ theorem readName_sat (o : Options) (c : Cur) :
       intro _ c' hrch hp
       simp only
       split
-      · exact ⟨Cur.Reach.refl c', trivial⟩
+      · split
+        · exact ⟨Cur.Reach.refl c', rfl⟩
+        · exact ⟨Cur.Reach.refl c', trivial⟩
       · rename_i hlen
         refine ⟨Cur.Reach.refl c', rfl, ?_, ?_, ?_⟩ <;> simp only [hp.1] <;> omega
 
